@@ -172,6 +172,16 @@ def bjj (P : List Nat → Nat) (H3 : Nat → Nat → Nat → Nat) (b : BjjBundle
 inductive ProofKind | bjj | smt | other (name : String)
 deriving DecidableEq, Repr
 
+/-- the proof types VerifyProof knows how to verify: the source's constant and the type string it stands for, in the order of its
+    switch (compared with the source on every run, `SourceFacts.proof_switch_is_models`); every other type is "not supported" -/
+def proofTypeTable : List (String × String × ProofKind) :=
+  [("BJJSignatureProofType", "BJJSignature2021", .bjj), ("Iden3SparseMerkleTreeProofType", "Iden3SparseMerkleTreeProof", .smt)]
+
+def kindOfName (name : String) : ProofKind :=
+  match proofTypeTable.find? (fun e => e.2.1 == name) with
+  | some e => e.2.2
+  | none => .other name
+
 def dispatch (available : List ProofKind) (wanted : ProofKind) (claimOk : Bool) (bind : Except String Unit)
     (run : ProofKind → Outcome) : Outcome :=
   if !available.contains wanted then .err "proof_not_found"
